@@ -50,7 +50,8 @@ type Parser struct {
 
 // The parser is recursive, every level of nesting takes up stack space.
 // Input that nests deeper than this is rejected instead of overflowing the stack.
-const maxNesting = 1000
+// Several productions on the way down count, one level of parentheses amounts to about five.
+const maxNesting = 5000
 
 // Called on entry to a production through which nested constructs recurse.
 // Reports an error and returns false when the limit is exceeded.
@@ -731,6 +732,11 @@ func (p *Parser) topLevelExpression() ast.ExpressionNode {
 }
 
 func (p *Parser) declarationExpression(allowed bool) ast.ExpressionNode {
+	defer p.leaveNesting()
+	if !p.enterNesting() {
+		return p.nestedTooDeeply()
+	}
+
 	switch p.lookahead.Type {
 	case token.MACRO:
 		return p.macroDefinition(allowed)
@@ -890,6 +896,11 @@ func (p *Parser) modifierExpression() ast.ExpressionNode {
 
 // assignmentExpression = logicalOrExpression | expression ASSIGN_OP assignmentExpression
 func (p *Parser) assignmentExpression() ast.ExpressionNode {
+	defer p.leaveNesting()
+	if !p.enterNesting() {
+		return p.nestedTooDeeply()
+	}
+
 	left := p.logicalOrExpression()
 
 	if !p.lookahead.IsAssignmentOperator() {
@@ -1418,6 +1429,11 @@ func (p *Parser) asExpression() ast.ExpressionNode {
 
 // unaryExpression = powerExpression | ("!" | "-" | "+" | "~" | "&" | "<<") unaryExpression
 func (p *Parser) unaryExpression() ast.ExpressionNode {
+	defer p.leaveNesting()
+	if !p.enterNesting() {
+		return p.nestedTooDeeply()
+	}
+
 	if operator, ok := p.matchOk(token.BANG, token.MINUS, token.PLUS, token.TILDE, token.LBITSHIFT); ok {
 		p.swallowNewlines()
 
@@ -1458,6 +1474,11 @@ func (p *Parser) unaryExpression() ast.ExpressionNode {
 
 // powerExpression = postfixExpression | postfixExpression "**" powerExpression
 func (p *Parser) powerExpression() ast.ExpressionNode {
+	defer p.leaveNesting()
+	if !p.enterNesting() {
+		return p.nestedTooDeeply()
+	}
+
 	left := p.postfixExpression()
 
 	if p.lookahead.Type != token.STAR_STAR {
@@ -2432,6 +2453,11 @@ func (p *Parser) percentPrefixedExpression() ast.ExpressionNode {
 }
 
 func (p *Parser) primaryExpression() ast.ExpressionNode {
+	defer p.leaveNesting()
+	if !p.enterNesting() {
+		return p.nestedTooDeeply()
+	}
+
 	switch p.lookahead.Type {
 	case token.NEW:
 		return p.newExpression()
@@ -4983,6 +5009,11 @@ func (p *Parser) differenceType() ast.TypeNode {
 
 // unaryType = ("~" | "&" | "%" | "^" | "*") unaryType | nilableType
 func (p *Parser) unaryType() ast.TypeNode {
+	defer p.leaveNesting()
+	if !p.enterNesting() {
+		return p.nestedTooDeeply()
+	}
+
 	switch p.lookahead.Type {
 	case token.TILDE:
 		opTok := p.advance()
@@ -5042,6 +5073,11 @@ func (p *Parser) nilableType() ast.TypeNode {
 
 // unaryLiteralType = ("-" | "+") unaryLiteralType | primaryType
 func (p *Parser) unaryLiteralType() ast.TypeNode {
+	defer p.leaveNesting()
+	if !p.enterNesting() {
+		return p.nestedTooDeeply()
+	}
+
 	switch p.lookahead.Type {
 	case token.PLUS, token.MINUS:
 		opTok := p.advance()
